@@ -455,6 +455,9 @@ theorem skeleton_do_put_ok : skeletonOf "do_put" = Skeleton.do_put := by decide 
 theorem skeleton_do_yield_ok : skeletonOf "do_yield" = Skeleton.do_yield := by decide +kernel
 theorem skeleton_janet_quick_asm_ok : skeletonOf "janet_quick_asm" = Skeleton.janet_quick_asm := by decide +kernel
 theorem skeleton_janetc_check_nil_form_ok : skeletonOf "janetc_check_nil_form" = Skeleton.janetc_check_nil_form := by decide +kernel
+/-- `set` refuses a slot without `JANET_SLOT_MUTABLE`: a `def` local / parameter / temporary is never the destination of an assignment, so
+    an operator method cannot assign an operand `opreduce` did not snapshot (`himmune` of `variadic_snapshot_emitted_eq_generic`) -/
+theorem skeleton_janetc_varset_ok : skeletonOf "janetc_varset" = Skeleton.janetc_varset := by decide +kernel
 theorem skeleton_janetc_movenear_ok : skeletonOf "janetc_movenear" = Skeleton.janetc_movenear := by decide +kernel
 theorem skeleton_janetc_regnear_ok : skeletonOf "janetc_regnear" = Skeleton.janetc_regnear := by decide +kernel
 theorem skeleton_janetc_emit_sss_ok : skeletonOf "janetc_emit_sss" = Skeleton.janetc_emit_sss := by decide +kernel
@@ -464,7 +467,7 @@ theorem skeleton_janetc_call_selection_ok : skeletonOf "janetc_call.selection" =
 /-- every C body that has an expected skeleton is present in the regenerated table, and nothing else is -/
 theorem skeleton_names_ok : skeletons.map (·.1) =
     ["genericSS", "genericSSI", "opfunction", "can_be_imm", "can_slot_be_imm", "reduce_target", "opreduce", "compreduce", "janetc_funopt",
-     "do_apply", "do_debug", "do_error", "do_get", "do_put", "do_yield", "janet_quick_asm", "janetc_check_nil_form", "janetc_movenear",
+     "do_apply", "do_debug", "do_error", "do_get", "do_put", "do_yield", "janet_quick_asm", "janetc_check_nil_form", "janetc_varset", "janetc_movenear",
      "janetc_regnear", "janetc_emit_sss", "emit2s", "janetc_call.selection"] := by
   decide +kernel
 
